@@ -42,6 +42,10 @@ WHITELIST = [
     dict(cls=None, fn="mem_put_le16"),
     dict(cls=None, fn="mem_put_le24"),
     dict(cls=None, fn="ans_write_end"),
+    dict(cls=None, fn="DecodeVarintUnsigned", params=["int", "unsigned int *", "draco::DecoderBuffer *"], suffix="_depthCheck_u32",
+         slice=dict(scope="body", first_decl="max_depth", count=2)),
+    dict(cls=None, fn="DecodeVarintUnsigned", params=["int", "unsigned long *", "draco::DecoderBuffer *"], suffix="_depthCheck_u64",
+         slice=dict(scope="body", first_decl="max_depth", count=2)),
     dict(cls=None, fn="EncodeVarint", params=["unsigned int", "draco::EncoderBuffer *"], suffix="_u32"),
     dict(cls=None, fn="EncodeVarint", params=["unsigned long", "draco::EncoderBuffer *"], suffix="_u64"),
     dict(cls="RAnsSymbolEncoder", fn="EncodeTable", suffix="_sizeClass", slice=dict(first_decl="num_extra_bytes", count=2)),
@@ -88,6 +92,7 @@ TU_TEXT = """\
 #include "draco/compression/entropy/rans_symbol_coding.h"
 #include "draco/compression/entropy/rans_symbol_encoder.h"
 #include "draco/core/varint_encoding.h"
+#include "draco/core/varint_decoding.h"
 #include "draco/core/draco_types.cc"
 static_assert(std::is_same<int8_t, signed char>::value && std::is_same<uint8_t, unsigned char>::value, "");
 static_assert(std::is_same<int16_t, short>::value && std::is_same<uint16_t, unsigned short>::value, "");
@@ -100,6 +105,8 @@ template uint32_t ConvertSignedIntToSymbol<int32_t>(int32_t);
 template int32_t ConvertSymbolToSignedInt<uint32_t>(uint32_t);
 template int32_t AddAsUnsigned<int32_t>(int32_t, int32_t);
 template class RAnsSymbolEncoder<12>;
+template bool DecodeVarint<uint32_t>(uint32_t *, DecoderBuffer *);
+template bool DecodeVarint<uint64_t>(uint64_t *, DecoderBuffer *);
 template bool EncodeVarint<uint32_t>(uint32_t, EncoderBuffer *);
 template bool EncodeVarint<uint64_t>(uint64_t, EncoderBuffer *);
 template class PredictionSchemeNormalOctahedronCanonicalizedTransformBase<int32_t>;
@@ -196,7 +203,7 @@ def parse_type(s, _depth=0):
         inner = parse_type(s[:-1])
         return CT("ptr", to=inner)
     if s.endswith("*const"):
-        s, const = s[:-5].strip(), True
+        return CT("ptr", to=parse_type(s[:-6].strip(), _depth), const=True)
     if s.endswith(" const"):
         s, const = s[:-6].strip(), True
     if s.startswith("const "):
@@ -212,7 +219,7 @@ def parse_type(s, _depth=0):
     if s in ("bool", "_Bool"):
         return CT("bool", const=const)
     if s == "void":
-        return CT("void")
+        return CT("void", const=const)
     m = re.fullmatch(r"(?:draco::)?VectorD<(.+), 2>", s)
     if m:
         el = parse_type(m.group(1))
@@ -679,9 +686,12 @@ class FuncTranslator:
                 if isinstance(c, dict):
                     walk(c)
         walk(self.body)
-        if not loops:
-            raise XlateError("slice: the function has no for loop")
-        lb = (loops[0]["inner"] + [{}] * 5)[4]
+        if spec.get("scope") == "body":
+            lb = self.body
+        else:
+            if not loops:
+                raise XlateError("slice: the function has no for loop")
+            lb = (loops[0]["inner"] + [{}] * 5)[4]
         if lb.get("kind") != "CompoundStmt":
             raise XlateError("slice: the loop body is not a block")
         ss = [c for c in lb.get("inner", []) if c.get("kind")]
@@ -845,6 +855,10 @@ class FuncTranslator:
                 ln = self._alloc(nm)
                 ctx.types[loc], ctx.names[loc], ctx.vals[loc] = t, ln, ln
                 info.params.append((ln, t.lean(), ("val", k)))
+            elif t.kind == "ptr" and t.to.kind == "int" and t.to.bits == 8 and t.to.const and not self.pointwise:
+                ln = self._alloc(nm)
+                ctx.bptr["v:" + p["id"]] = ("src:" + ln, "0")
+                info.params.append((ln, "Int → Int", ("src", k)))
             elif t.kind == "ptr" and t.to.kind == "int" and t.to.bits == 8 and not t.to.const and not self.pointwise:
                 ctx.bptr["v:" + p["id"]] = ("p:" + p["id"], "0")
             elif t.kind == "ptr" and t.to.kind == "int" and not self.pointwise and p["id"] in self.array_params:
@@ -876,6 +890,10 @@ class FuncTranslator:
                         info.params.append((ln, "Int", ("elem" if self.pointwise else "deref", k)))
                     else:
                         ctx.vals[loc] = None
+            elif self._is_bptr_type(t) and t.to.const and not self.pointwise:
+                ln = self._alloc(nm)
+                ctx.bptr["v:" + p["id"]] = ("src:" + ln, "0")
+                info.params.append((ln, "Int → Int", ("src", k)))
             elif t.kind == "ptr" and t.to.kind == "void":
                 ctx.bptr["v:" + p["id"]] = ("p:" + p["id"], "0")
             elif t.kind == "ptr" and t.to.kind == "class" and t.to.name.split("::")[-1] == "EncoderBuffer":
@@ -1456,6 +1474,16 @@ class FuncTranslator:
             return
         if kind in ("ExprWithCleanups", "ParenExpr"):
             return self.simple(s["inner"][0], ctx, lines)
+        if kind == "BinaryOperator" and s.get("opcode") == "=" and not self.pointwise and \
+                self._is_bptr_type(node_type(s["inner"][0])):
+            l0 = _strip(s["inner"][0])
+            if l0.get("kind") == "MemberExpr":
+                o = _strip(l0["inner"][0])
+                if o.get("kind") == "DeclRefExpr" and o["referencedDecl"]["id"] in self.sptr:
+                    # `ans->buf = buf`: the pointer field is not represented; later reads through it resolve here
+                    ctx.bptr[f"gp:{o['referencedDecl']['id']}:{l0['name']}"] = self.ev_bptr(s["inner"][1], ctx)
+                    return
+            self.fail("assignment to a byte pointer", s)
         if kind == "BinaryOperator" and s.get("opcode") == "=" and not self.pointwise:
             l0 = _strip(s["inner"][0])
             tgt = None
@@ -1549,13 +1577,18 @@ class FuncTranslator:
         if k == "MemberExpr":
             obj = _strip(n["inner"][0])
             if obj.get("kind") == "DeclRefExpr" and obj["referencedDecl"]["id"] in self.sptr and self._is_bptr_type(node_type(n)):
+                key = f"gp:{obj['referencedDecl']['id']}:{n['name']}"
+                if key in ctx.bptr:
+                    return ctx.bptr[key]
                 return (f"g:{obj['referencedDecl']['id']}:{n['name']}", "0")
             self.fail("pointer field", n)
-        if k == "BinaryOperator" and n.get("opcode") == "+" and self._is_bptr_type(node_type(n["inner"][0])):
+        if k == "BinaryOperator" and n.get("opcode") in ("+", "-") and self._is_bptr_type(node_type(n["inner"][0])):
             b, o = self.ev_bptr(n["inner"][0], ctx)
             v, vt = self.ev(n["inner"][1], ctx)
             if vt.kind != "int":
                 self.fail("pointer arithmetic with a non-integer", n)
+            if n["opcode"] == "-":
+                return (b, f"({o} - {v})")
             return (b, v if o == "0" else f"({o} + {v})")
         self.fail("unsupported byte pointer expression", n)
 
@@ -1855,6 +1888,11 @@ class FuncTranslator:
             return self.ev(n["inner"][0], ctx)
         if k == "IntegerLiteral":
             return n["value"], node_type(n)
+        if k == "UnaryExprOrTypeTraitExpr" and n.get("name") == "sizeof" and "argType" in n:
+            at = parse_type(n["argType"].get("desugaredQualType") or n["argType"]["qualType"])
+            if at.kind != "int":
+                self.fail("sizeof of a non-integer type", n)
+            return str(at.bits // 8), node_type(n)
         if k == "CXXBoolLiteralExpr":
             return ("true" if n["value"] else "false"), CT("bool")
         if k in ("ImplicitCastExpr", "CXXStaticCastExpr", "CStyleCastExpr", "CXXFunctionalCastExpr"):
@@ -1934,9 +1972,15 @@ class FuncTranslator:
         if k == "MemberExpr":
             loc = self.lvalue(n, ctx)
             return self.read(ctx, loc, n), ctx.types[loc]
+        if k == "ArraySubscriptExpr" and not self.pointwise and self._is_bptr_type(node_type(n["inner"][0])):
+            b, o = self.ev_bptr(n["inner"][0], ctx)
+            if not b.startswith("src:"):
+                self.fail("read through a pointer that is written through", n)
+            iv, it = self.ev(n["inner"][1], ctx)
+            return f"({b[4:]} {iv if o == '0' else f'({o} + {iv})'})", node_type(n)
         if k == "ArraySubscriptExpr":
             loc = self.lvalue(n, ctx)
-            return self.read(ctx, loc, n), ctx.types[loc]
+            return self.read(ctx, loc, n), self.loc_type(ctx, loc)
         if k in ("CXXTemporaryObjectExpr", "CXXConstructExpr"):
             t = node_type(n)
             args = [c for c in n.get("inner", []) if c.get("kind")]
@@ -2058,6 +2102,11 @@ class FuncTranslator:
                 if not self.pointwise:
                     self.fail(f"call of the pointwise function `{name}` outside pointwise mode", n)
                 texts.append(self.ev_ptr(a, ctx))
+            elif how[0] == "src":
+                b, o = self.ev_bptr(a, ctx)
+                if not b.startswith("src:"):
+                    self.fail(f"call of `{name}`: the source argument is not a read-only byte pointer", n)
+                texts.append(b[4:] if o == "0" else f"(fun i => {b[4:]} ({o} + i))")
             else:
                 self.fail(f"call of `{name}` with a pointer argument", n)
         s = f"({info.lean_name}" + (" self" if info.struct else "") + "".join(" " + x for x in texts) + ")"
